@@ -10,6 +10,11 @@ Runs inside harness/impl_worker.py (/venv/bin/python, PYTHONPATH=$VERIF_REPO or 
   (c) at the end repeats every earlier query/transition and compares the results.
 `threads` runs several histories in real threads on ONE shared domain object and compares every thread's
 results with its sequential run.
+`sched` does the same under a DETERMINISTIC scheduler: the containers of the shared domain (Domain.types, the other
+Domain dicts/lists, every Action.signature and the effect sets of every Action) are replaced by logging proxies
+(dict / list / set subclasses); every access of a proxy by a scheduled thread is a yield point at which the
+scheduler may hand control to another thread.  All schedules with at most one preemption are enumerated (every
+yield point x every other thread), plus seeded random schedules; every access is logged as (thread, step, R/W, cell).
 """
 import hashlib
 import json
@@ -20,7 +25,7 @@ import sys
 import threading
 from pathlib import Path
 
-from pddl_plus_parser.exporters import DomainExporter, TrajectoryExporter
+from pddl_plus_parser.exporters import DomainExporter, ProblemExporter, TrajectoryExporter
 from pddl_plus_parser.lisp_parsers import DomainParser, ProblemParser
 from pddl_plus_parser.models import (Domain, Operator, PDDLConstant, PDDLFunction, PDDLObject, PDDLType,
                                      Predicate, State)
@@ -56,14 +61,15 @@ def canon(obj, memo, cut=()):
     if oid in memo:
         return ["ref", memo[oid]]
     memo[oid] = len(memo)
+    tname = getattr(type(obj), "_base_name", type(obj).__name__)
     if isinstance(obj, dict):
-        return [type(obj).__name__, [[canon(k, memo, cut), canon(v, memo, cut)] for k, v in list(obj.items())]]
+        return [tname, [[canon(k, memo, cut), canon(v, memo, cut)] for k, v in list(dict.items(obj))]]
     if isinstance(obj, (list, tuple)):
-        return [type(obj).__name__, [canon(v, memo, cut) for v in list(obj)]]
+        return [tname, [canon(v, memo, cut) for v in (list.__iter__(obj) if isinstance(obj, list) else obj)]]
     if isinstance(obj, (set, frozenset)):
-        elems = list(obj)
+        elems = list(set.__iter__(obj)) if isinstance(obj, set) else list(obj)
         keyed = sorted(((json.dumps(canon(e, {}, cut), sort_keys=True), i) for i, e in enumerate(elems)))
-        return [type(obj).__name__, [canon(elems[i], memo, cut) for _, i in keyed]]
+        return [tname, [canon(elems[i], memo, cut) for _, i in keyed]]
     d = getattr(obj, "__dict__", None)
     if d is not None:
         items = []
@@ -98,8 +104,9 @@ def digest(objs):
     return hashlib.sha1(json.dumps(c, sort_keys=True).encode()).hexdigest()[:16]
 
 
-def reach(objs):
-    """ids (-> kind) of the mutable objects reachable from objs, not descending into IMMUTABLE values."""
+def reach(objs, skip=()):
+    """ids (-> kind) of the mutable objects reachable from objs, not descending into IMMUTABLE values nor into the
+    objects whose ids are in `skip`."""
     seen, out, todo = set(), {}, list(objs)
     while todo:
         o = todo.pop()
@@ -108,7 +115,7 @@ def reach(objs):
         if isinstance(o, IMMUTABLE):
             continue
         oid = id(o)
-        if oid in seen:
+        if oid in seen or oid in skip:
             continue
         seen.add(oid)
         if isinstance(o, dict):
@@ -141,6 +148,7 @@ class Ctx:
         self.doms = list(shared_domains or [])     # Domain objects
         self.sts = []                              # (State, Problem-or-None)
         self.ops = []                              # Operator objects
+        self.plans = []                            # lists of TrajectoryTriplet (results of parse_plan)
         self.files = {}
 
     def path(self, kind, i, text):
@@ -163,7 +171,13 @@ class Ctx:
         return {name: digest(objs) for name, objs in self.roots() if name[0] != "O"}
 
     def sharing(self):
-        rs = [(name, reach(objs)) for name, objs in self.roots()]
+        # A Problem refers to its own Domain: through Problem.domain (CUT) and through the leaves of its numeric goal
+        # trees, which for a zero-arity fluent are the domain's own lifted PDDLFunction objects
+        # (numerical_expression.construct_expression_tree returns domain_functions[name] itself).  Like Problem.domain
+        # these references into the schema are not "state shared between values": no operation evaluates a goal tree.
+        # (The digest oracle still walks them: a write to such an object is reported as a change of the domain.)
+        schema = {id(f) for d in self.doms for f in dict.values(d.functions)}
+        rs = [(name, reach(objs, skip=() if name[0] == "D" else schema)) for name, objs in self.roots()]
         pairs = []
         for i in range(len(rs)):
             for j in range(i + 1, len(rs)):
@@ -191,7 +205,8 @@ def text_res(t):
 def resolve(op, ctx):
     """Relative references (any non-negative integer) are resolved modulo the number of live handles."""
     r = dict(op)
-    for key, pool in (("dom", ctx.doms), ("st", ctx.sts), ("op", ctx.ops), ("objs", ctx.sts)):
+    for key, pool in (("dom", ctx.doms), ("st", ctx.sts), ("st2", ctx.sts), ("op", ctx.ops), ("objs", ctx.sts),
+                      ("plan", ctx.plans)):
         if key in r and r[key] is not None:
             if not pool:
                 return None
@@ -303,15 +318,60 @@ def execute(op, ctx, register=True):
         r = state_res(t.next_state)
         r.update({"new": "OS", "refused": bool(refused), "same_as_prev": t.next_state == st})
         return r
+    if k == "plan":
+        # TrajectoryExporter.parse_plan on the problem of state `objs` (starts from ITS initial state): every
+        # triplet's operator and next state become live handles
+        dom = ctx.doms[op["dom"]]
+        prob = ctx.sts[op["objs"]][1]
+        te = TrajectoryExporter(dom, allow_invalid_actions=bool(op.get("allow")))
+        base_s, base_o = len(ctx.sts), len(ctx.ops)
+        trips = te.parse_plan(prob, action_sequence=[c["call"] for c in op["calls"]])
+        refused = []
+        for t in trips:
+            refused.append(bool((not op.get("allow")) and (not t.operator.is_applicable(t.previous_state))))
+        if register:
+            # trips[0].previous_state is a State over the problem's own initial dicts: the same value as the
+            # state registered for that problem (handle op["objs"]), so it is not registered again
+            for t in trips:
+                ctx.ops.append(t.operator)
+                ctx.sts.append((t.next_state, None))
+            ctx.plans.append(trips)
+        r = state_res(trips[-1].next_state)
+        r.update({"new": "P", "refused": refused, "n": len(trips), "base_s": base_s, "base_o": base_o,
+                  "traj": hashlib.sha1(json.dumps([state_res(t.next_state)["canon"] for t in trips]).encode()).hexdigest()[:12]})
+        r.pop("state", None)
+        r.pop("text", None)
+        return r
+    if k == "export_traj":
+        trips = ctx.plans[op["plan"]]
+        lines = TrajectoryExporter.export(trips)
+        return {"len": len(lines), "ops": hashlib.sha1("".join(l for l in lines if l.startswith("(operator")).encode()).hexdigest()[:12],
+                "canon": hashlib.sha1(json.dumps([state_res(t.next_state)["canon"] for t in trips]).encode()).hexdigest()[:12]}
+    if k == "export_problem":
+        prob = ctx.sts[op["st"]][1]
+        t = ProblemExporter().extract_problem(prob)
+        r = text_res(t + "|" + str(prob))
+        r["bag"] = hashlib.sha1(" ".join(sorted((t + str(prob)).replace("(", " ( ").replace(")", " ) ").split())).encode()).hexdigest()[:12]
+        return r
+    if k == "str_domain":
+        return text_res(str(ctx.doms[op["dom"]]))
+    if k == "shallow_copy":
+        d = ctx.doms[op["dom"]].shallow_copy()
+        if register:
+            ctx.doms.append(d)
+        return {"new": "D"}
+    if k == "state_eq":
+        a, b = ctx.sts[op["st"]][0], ctx.sts[op["st2"]][0]
+        return {"bool": bool(a == b), "n": len(a.convert_fluents_to_numeric_conditions())}
     raise ValueError("unknown op " + k)
 
 
 QUERY = {"applicable", "apply", "copy", "serialize", "typed_serialize", "state_objects", "str_op", "str_action",
-         "export", "triplet"}
+         "export", "triplet", "plan", "export_traj", "export_problem", "str_domain", "state_eq"}
 
 
 def strip(res):
-    return {k: v for k, v in res.items() if k not in ("new",)}
+    return {k: v for k, v in res.items() if k not in ("new", "base_s", "base_o")}
 
 
 def strip_x(res):
@@ -325,12 +385,14 @@ def strip_x(res):
     return r
 
 
-def run_history(job, wdir, shared_domains=None, oracle=True, watch=None):
+def run_history(job, wdir, shared_domains=None, oracle=True, watch=None, mark_steps=False):
     """Executes job['ops']; returns the trace."""
     ctx = Ctx(job, wdir, shared_domains)
     steps = []
     before = ctx.protected_digests() if oracle else {}
-    for raw in job["ops"]:
+    for step_index, raw in enumerate(job["ops"]):
+        if mark_steps:
+            _tls.step = step_index
         op = resolve(raw, ctx)
         if op is None:
             steps.append({"op": raw, "skipped": True})
@@ -340,12 +402,18 @@ def run_history(job, wdir, shared_domains=None, oracle=True, watch=None):
             op["objs"] = pj
             if pj is None:
                 op["objs"] = None
-        if op["k"] == "triplet":
+        if op["k"] in ("triplet", "plan"):
             pj, _ = problem_of(ctx, op["objs"])
             if pj is None:
                 steps.append({"op": raw, "skipped": True})
                 continue
             op["objs"] = pj
+        if op["k"] == "export_problem":
+            pj, _ = problem_of(ctx, op["st"])
+            if pj is None:
+                steps.append({"op": raw, "skipped": True})
+                continue
+            op["st"] = pj
         try:
             res = execute(op, ctx)
         except Exception as e:  # an API call raising anything but the documented refusal
@@ -478,4 +546,260 @@ def threads(job):
                 "steps": [len(r) for r in ref], "raised": [sum(1 for x in r if "raised" in x) for r in ref]}
     finally:
         sys.setswitchinterval(old)
+        shutil.rmtree(wdir, ignore_errors=True)
+
+
+# ------------------------------------------------------------------------------------------ deterministic scheduler
+_tls = threading.local()
+_ACTIVE = [None]          # the scheduler of the run in progress
+
+
+def _hit(cell, kind):
+    sch = _ACTIVE[0]
+    if sch is None:
+        return
+    tid = getattr(_tls, "tid", None)
+    if tid is None:
+        return
+    sch.hit(tid, getattr(_tls, "step", -1), cell, kind)
+
+
+def _mk_proxy(base, name, reads, writes, extra_reads=()):
+    """a subclass of dict / list / set whose methods announce the access (a yield point) before performing it"""
+    ns = {"__slots__": ("_cell",), "_base_name": base.__name__}
+
+    def wrap(meth, kind):
+        f = getattr(base, meth)
+
+        def g(self, *a, **kw):
+            _hit(self._cell, kind)
+            return f(self, *a, **kw)
+        g.__name__ = meth
+        return g
+    for m in reads:
+        if hasattr(base, m):
+            ns[m] = wrap(m, "R")
+    for m in writes:
+        if hasattr(base, m):
+            ns[m] = wrap(m, "W")
+    return type(name, (base,), ns)
+
+
+PDict = _mk_proxy(dict, "PDict",
+                  ["__getitem__", "get", "__contains__", "__iter__", "__len__", "keys", "values", "items", "copy",
+                   "__eq__", "__ne__", "__or__", "__ror__", "__reversed__"],
+                  ["__setitem__", "__delitem__", "pop", "popitem", "update", "setdefault", "clear", "__ior__"])
+PList = _mk_proxy(list, "PList",
+                  ["__getitem__", "__contains__", "__iter__", "__len__", "copy", "count", "index", "__eq__", "__ne__",
+                   "__add__", "__mul__", "__reversed__"],
+                  ["__setitem__", "__delitem__", "append", "extend", "insert", "remove", "pop", "clear", "sort",
+                   "reverse", "__iadd__", "__imul__"])
+PSet = _mk_proxy(set, "PSet",
+                 ["__contains__", "__iter__", "__len__", "copy", "__eq__", "__ne__", "__or__", "__and__", "__sub__",
+                  "__xor__", "__ror__", "__rand__", "__rsub__", "__rxor__", "union", "intersection", "difference",
+                  "symmetric_difference", "issubset", "issuperset", "isdisjoint", "__le__", "__lt__", "__ge__", "__gt__"],
+                 ["add", "discard", "remove", "pop", "clear", "update", "intersection_update", "difference_update",
+                  "symmetric_difference_update", "__ior__", "__iand__", "__isub__", "__ixor__"])
+
+
+def _px(cls, obj, cell):
+    o = cls(obj)
+    o._cell = cell
+    return o
+
+
+def proxify(dom):
+    """replaces the containers of a (shared) domain by logging proxies.  Cells: "T" = Domain.types,
+    "A<i>" = signature of the i-th action, "X" = every other container of the Domain and of its Actions."""
+    dom.types = _px(PDict, dom.types, "T")
+    for name in ("actions", "predicates", "functions", "constants"):
+        setattr(dom, name, _px(PDict, getattr(dom, name), "X"))
+    dom.requirements = _px(PList, dom.requirements, "X")
+    for i, a in enumerate(dict.values(dom.actions)):
+        a.signature = _px(PDict, a.signature, "A%d" % i)
+        for attr in ("discrete_effects", "numeric_effects", "conditional_effects", "universal_effects"):
+            setattr(a, attr, _px(PSet, getattr(a, attr), "X"))
+    return dom
+
+
+class Sched:
+    """One run of n threads under a deterministic policy.  Exactly one thread runs at a time; control changes
+    hands only at yield points (accesses of proxies) and when a thread ends."""
+
+    def __init__(self, n, order, preempt=None, rng=None, p_switch=0.0):
+        self.n, self.order = n, list(order)
+        self.preempt = dict(preempt or {})          # global hit index -> thread to switch to
+        self.rng, self.p_switch = rng, p_switch
+        self.sems = [threading.Semaphore(0) for _ in range(n)]
+        self.done = [False] * n
+        self.count = 0
+        self.log = []                                # (tid, step, kind, cell) in execution order
+        self.switches = 0
+        self.error = None
+
+    def _wait(self, t):
+        if not self.sems[t].acquire(timeout=60):
+            self.error = "scheduler timeout in thread %d" % t
+            raise RuntimeError(self.error)
+
+    def begin(self, t):
+        self._wait(t)
+
+    def start(self):
+        self.sems[self.order[0]].release()
+
+    def hit(self, t, step, cell, kind):
+        i = self.count
+        self.count += 1
+        nxt = t
+        if i in self.preempt:
+            nxt = self.preempt[i]
+        elif self.rng is not None and self.rng.random() < self.p_switch:
+            cands = [u for u in range(self.n) if not self.done[u] and u != t]
+            if cands:
+                nxt = self.rng.choice(cands)
+        if nxt != t and not self.done[nxt]:
+            self.switches += 1
+            self.sems[nxt].release()
+            self._wait(t)
+        self.log.append((t, step, kind, cell))
+
+    def end(self, t):
+        self.done[t] = True
+        for u in self.order:
+            if not self.done[u]:
+                self.sems[u].release()
+                return
+
+
+def _sched_run(job, wdir, tag, dpath, order, preempt=None, rng=None, p_switch=0.0):
+    """one scheduled run on a fresh, proxified parse of the shared domain"""
+    shared = proxify(DomainParser(dpath).parse_domain())
+    n = len(job["threads"])
+    sch = Sched(n, order, preempt, rng, p_switch)
+    results = [None] * n
+
+    def body(t, ops):
+        sub = wdir / ("%s_%d" % (tag, t))
+        sub.mkdir()
+        _tls.tid = None
+        try:
+            sch.begin(t)
+            _tls.tid = t
+            out, _ = run_history(dict(job, ops=ops), sub, shared_domains=[shared], oracle=False, mark_steps=True)
+            results[t] = out
+        except Exception as e:  # noqa
+            results[t] = {"steps": [], "crash": type(e).__name__ + ":" + str(e)[:100]}
+        finally:
+            _tls.tid = None
+            sch.end(t)
+
+    _ACTIVE[0] = sch
+    try:
+        ths = [threading.Thread(target=body, args=(t, ops)) for t, ops in enumerate(job["threads"])]
+        for th in ths:
+            th.start()
+        sch.start()
+        for th in ths:
+            th.join(120)
+    finally:
+        _ACTIVE[0] = None
+    for t in range(n):
+        shutil.rmtree(wdir / ("%s_%d" % (tag, t)), ignore_errors=True)
+    return shared, sch, results
+
+
+def sched(job):
+    """job: {'doms': [text], 'probs': [...], 'threads': [ops, ...], 'random': k, 'seed': n, 'max_points': m}."""
+    import itertools
+    import random as _random
+    wdir = TMP / ("s_%d_%s" % (os.getpid(), job.get("id", 0)))
+    if wdir.exists():
+        shutil.rmtree(wdir)
+    wdir.mkdir(parents=True)
+    try:
+        _reset_module()
+        dpath = wdir / "shared_dom.pddl"
+        dpath.write_text(job["doms"][0])
+        n = len(job["threads"])
+        # sequential reference: each history alone, on its own (proxified, unscheduled) parse of the domain
+        ref, ref_raw = [], []
+        for t, ops in enumerate(job["threads"]):
+            d = proxify(DomainParser(dpath).parse_domain())
+            sub = wdir / ("seq_%d" % t)
+            sub.mkdir()
+            out, _ = run_history(dict(job, ops=ops), sub, shared_domains=[d], oracle=False)
+            ref.append([strip_x(s.get("res", {})) for s in out["steps"]])
+            ref_raw.append(out["steps"])
+        fresh_digest = digest([proxify(DomainParser(dpath).parse_domain())])
+        diffs, shared_writes, dom_changed, n_runs, total_hits, total_switches = [], [], 0, 0, 0, 0
+        foot = [[{"r": set(), "w": set()} for _ in ops] for ops in job["threads"]]
+        sample = None
+        errors = []
+
+        def account(tag, shared, sch, results, descr):
+            nonlocal dom_changed, n_runs, total_hits, total_switches, sample
+            n_runs += 1
+            total_hits += sch.count
+            total_switches += sch.switches
+            if sch.error:
+                errors.append(sch.error)
+            for (t, step, kind, cell) in sch.log:
+                if 0 <= step < len(foot[t]):
+                    foot[t][step]["w" if kind == "W" else "r"].add(cell)
+                if kind == "W":
+                    shared_writes.append({"schedule": descr, "thread": t, "step": step, "cell": cell})
+            for t, out in enumerate(results):
+                got = [strip_x(s.get("res", {})) for s in (out or {}).get("steps", [])]
+                if got != ref[t] or out is None or "crash" in out:
+                    first = next((i for i, (a, b) in enumerate(zip(got, ref[t])) if a != b), None)
+                    diffs.append({"schedule": descr, "thread": t, "first_diff_step": first,
+                                  "got": got[first] if first is not None and first < len(got) else (out or {}).get("crash"),
+                                  "expected": ref[t][first] if first is not None else None})
+            if digest([shared]) != fresh_digest:
+                dom_changed += 1
+            if sch.switches and (sample is None or (sample[1] < 2 <= sch.switches)):
+                sample = ([[t, k, c] for (t, _, k, c) in sch.log], sch.switches)
+
+        # (1) the non-preemptive schedules, one per rotation of the thread order
+        # (2) every schedule with exactly ONE preemption relative to such a baseline: at every yield point j (thread t
+        #     running), hand control to each thread u that has not started yet; u runs to its end, t resumes
+        base_counts = {}
+        max_points = job.get("max_points", 10 ** 9)
+        exhaustive = True
+        for r in range(n):
+            order = list(range(r, n)) + list(range(r))
+            shared, sch, results = _sched_run(job, wdir, "b%d" % r, dpath, order)
+            account("b", shared, sch, results, {"order": order, "preempt": []})
+            base_counts[str(r)] = sch.count
+            base_log = list(sch.log)
+            idxs = [j for j in range(len(base_log)) if order.index(base_log[j][0]) < n - 1]
+            if len(idxs) > max_points:
+                exhaustive = False
+                rr0 = _random.Random(job.get("seed", 0) * 7919 + r)
+                idxs = sorted(rr0.sample(idxs, max_points))
+            for j in idxs:
+                t = base_log[j][0]
+                for u in order[order.index(t) + 1:]:
+                    shared, sch, results = _sched_run(job, wdir, "p", dpath, order, preempt={j: u})
+                    account("p", shared, sch, results, {"order": order, "preempt": [[j, u]]})
+        # (3) seeded random schedules (any number of preemptions)
+        rr = _random.Random(job.get("seed", 0))
+        for k in range(job.get("random", 0)):
+            order = list(range(n))
+            rr.shuffle(order)
+            seed_k = rr.randrange(10 ** 9)
+            shared, sch, results = _sched_run(job, wdir, "r", dpath, order, rng=_random.Random(seed_k),
+                                             p_switch=rr.choice([0.02, 0.1, 0.3]))
+            account("r", shared, sch, results, {"order": order, "random_seed": seed_k})
+        leak = _reset_module()
+        return {"n_runs": n_runs, "hits": total_hits, "switches": total_switches, "one_preemption_exhaustive": exhaustive,
+                "yield_points": base_counts, "diffs": diffs[:5], "n_diffs": len(diffs),
+                "shared_writes": shared_writes[:5], "n_shared_writes": len(shared_writes),
+                "domain_changed_runs": dom_changed, "module_leak": leak, "errors": errors[:3],
+                "foot": [[{"r": sorted(f["r"]), "w": sorted(f["w"])} for f in th] for th in foot],
+                "ref": [[{"op": s.get("op"), "res": s.get("res"), "skipped": s.get("skipped", False)} for s in steps] for steps in ref_raw],
+                "sample": (sample[0][:400] if sample else [])}
+    finally:
+        _ACTIVE[0] = None
         shutil.rmtree(wdir, ignore_errors=True)
